@@ -111,6 +111,19 @@ CLAIMED.update({
              "export policy empty; conformance is sampled (random walks), the design check exhaustive within the constants."),
 })
 
+CLAIMED.update({
+    "C09": dict(
+        category="exploration", design_ref="DESIGN.md 5 (C09)",
+        technique="TLA+ function-style spec Propagation.tla: the full case matrix with Expected per case enumerated by TLC, each case "
+                  "executed on the real process_nlri_change (both export branches) with a recording sink; inbound loop table "
+                  "replayed on real sessions",
+        text="The matrix source kind x receiver role x confederation x AS_PATH shape x attribute-presence vector x LLGR x same-peer is "
+             "finite; TLC enumerates it completely (exhaustive: true) and the real export function is run on every case and compared "
+             "field by field with what the statement requires; fields the statement leaves open are not compared.",
+        note="Trusted: the transcription of the statement into Expected (checked for internal consistency by TLC); concrete attribute "
+             "values are one representative per class; export policy actions are not part of the matrix."),
+})
+
 NOT_YET = {}
 
 HOOK_COMMITS = []
